@@ -18,6 +18,10 @@ STACK_GENS = {
     'IPv6': [P.pkt_ipv6_udp_coap, P.pkt_ipv6_sctp],
     'IPv4': [P.pkt_ipv4_udp_coap, P.pkt_ipv4_sctp],
 }
+# datagrams to ports that designate no (or only apparently a) next parser; large SCTP packets
+STACK_GENS['UDP'].append(P.pkt_udp_raw)
+STACK_GENS['IPv6'].append(P.pkt_ipv6_udp_raw)
+STACK_GENS['IPv4'].append(P.pkt_ipv4_udp_raw)
 ALL_STACKS = list(STACK_GENS)
 
 
